@@ -3,3 +3,8 @@ claim("C07", "exploration",
       "Trusts the reference model (harness/model/route.go) and the small label vocabulary; trees of depth<=4, fan-out<=4.",
       "differential testing against a reference model over generated configurations (runtime oracle)",
       "DESIGN.md section 3 C07")
+claim("C15", "exploration",
+      "Differential runtime monitor: generated interval specifications (all field shapes, every IANA location of the system tz database) are parsed by the real config loader; ContainsTime / Intervener.Mutes are compared with an independent civil-calendar evaluation on minute-grid instants 2000-2040, month/leap-year edges, every UTC-offset transition of the location and range end-points. Gating (mute/active stages, mutedBy in the API) is monitored in virtual-time system scenarios.",
+      "Trusts the reference calendar (own days-from-civil arithmetic) and the UTC offsets reported by the Go tz database; instants 1999-2041.",
+      "differential testing against an independent calendar model + trace checker on notifications (runtime oracle)",
+      "DESIGN.md section 3 C15")
